@@ -34,6 +34,7 @@ ATTACH = {
     "core/price_db.rs": "core/src/report/price_db.rs",
     "core/intern.rs": "core/src/report/intern.rs",
     "core/display.rs": "core/src/syntax/display.rs",
+    "core/tracked.rs": "core/src/syntax/tracked.rs",
     "core/report_error.rs": "core/src/report/error.rs",
     "cli/extract.rs": "cli/src/import/extract.rs",
     "cli/config.rs": "cli/src/import/config.rs",
@@ -114,11 +115,16 @@ def make_overlay(mode, crates=("core", "cli", "golden"), map_swap=True):
             if not os.path.exists(sp):
                 raise OverlayError("source file missing: %s" % src)
             with open(sp, "a") as f:
-                f.write('\n#[cfg(%s)] #[path = "%s"] mod verif_kani;\n' % (guard, hp))
+                f.write('\n#[cfg(%s)] #[path = "%s"] pub(crate) mod verif_kani;\n' % (guard, hp))
         for crate, (lib, mods) in CRATES.items():
             if crate not in crates:
                 continue
             lp = os.path.join(dest, lib)
+            with open(lp) as f:
+                libtext = f.read()
+            with open(lp, "w") as f:
+                # nested kani attribute macros (15 stubs per harness) exceed the default expansion depth
+                f.write('#![cfg_attr(kani, recursion_limit = "1024")]\n' + libtext)
             with open(lp, "a") as f:
                 f.write("\n")
                 for m in mods:
